@@ -13,7 +13,7 @@ static nsync_mu mu;
 static int datum;
 static int victim_in_call[H_MAXT], is_victim[H_MAXT];
 static int max_victim_sleeps;
-static int excused[H_MAXT]; static unsigned ex_sleeps[H_MAXT];
+static int excused[H_MAXT]; static unsigned ex_deq[H_MAXT];
 
 static int st_setup (const char *program) {
 	int t, k, n = h_parse (program);
@@ -38,13 +38,14 @@ MC_ORACLE static void acquired (void *m, int acq, int writer) {
 	/* MU_LONG_WAIT is one bit shared by all long waiters (threads woken LONG_WAIT_THRESHOLD times in their
 	   call, victims and bargers alike) and is cleared by whichever of them acquires: the other long waiters
 	   are unprotected until they queue again and set the bit again.  That single slip per other long waiter
-	   is by design and keeps the bound; it is excused below for exactly as long as the victim has not begun
-	   another sleep (i.e. has not queued again).  */
+	   is by design and keeps the bound; it is excused below until the victim has provably queued again: until
+	   it has been taken off the queue more often than the queueings that existed when the bit was cleared
+	   allow (its dequeue count then, plus one if it was queued then).  */
 	if (me >= 0 && (int) h_call_dequeues (me) >= LONG_WAIT_THRESHOLD)
-		for (int v = 0; v < h_nthreads; v++) if (v != me && is_victim[v]) { excused[v] = 1; ex_sleeps[v] = mc_sleeps_of (v); }
+		for (int v = 0; v < h_nthreads; v++) if (v != me && is_victim[v]) { excused[v] = 1; ex_deq[v] = h_call_dequeues (v) + (h_waiter_flagged (v) ? 1 : 0); }
 	for (int v = 0; v < h_nthreads; v++)
 		if (v != me && is_victim[v] && victim_in_call[v] && ((int) mc_sleeps_of (v) >= LONG_WAIT_THRESHOLD + 1 || (int) h_call_dequeues (v) >= LONG_WAIT_THRESHOLD + 1) && !h_call_has_waited (me)) {
-			if (excused[v] && ex_sleeps[v] == mc_sleeps_of (v)) continue;   /* v has not queued and slept again since the bit was cleared */
+			if (excused[v] && h_call_dequeues (v) <= ex_deq[v]) continue;   /* v has not provably queued again since the bit was cleared */
 			mc_fail ("starvation avoidance broken: T%d acquired the mutex with a call that never waited, although the victim T%d has been sent back to sleep %u times (threshold %d)", me, v, mc_sleeps_of (v), LONG_WAIT_THRESHOLD);
 			return;
 		}
